@@ -299,9 +299,15 @@ def gen_program(rng, skip):
     prog = {"globals": [rng.choice([0, 1, 5, 100, 999]) for _ in range(nglob)], "filters": [], "end": None}
     nf = rng.range(1, 5)
     for i in range(nf):
-        k = rng.weighted([(40, "bare"), (35, "both"), (25, "act")])
+        # a modifying action followed by a selecting filter is the interesting order
+        k = rng.weighted([(40, "bare"), (35, "both"), (25, "act")]) if i < nf - 1 else rng.weighted([(60, "bare"), (25, "both"), (15, "act")])
         if k == "bare":
-            prog["filters"].append({"pat": gen_bexpr(rng, 2, nglob, []), "act": None})
+            # selecting filters: often-true patterns so that packets actually reach the output
+            pat = rng.weighted([(25, ["t"]), (15, ["cmp", "!=", ["%", ["v", "NP"], rng.choice([2, 3, 5])], ["c", 0]]),
+                                (10, ["cmp", ">=", ["v", "PL"], ["c", rng.choice([0, 1, 60])]]), (50, None)])
+            if pat is None:
+                pat = gen_bexpr(rng, 2, nglob, [])
+            prog["filters"].append({"pat": pat, "act": None})
         elif k == "both":
             prog["filters"].append({"pat": gen_bexpr(rng, 2, nglob, []), "act": gen_stmts(rng, nglob, [], i, skip)})
         else:
